@@ -1,8 +1,9 @@
 #!/bin/sh
-# tools/regress.sh [-j N] — every seeded change must be reported, every keep / keep-ext variant must stay silent,
+# tools/regress.sh [-j N] [id-regex] — every seeded change must be reported, every keep / keep-ext variant must stay silent,
 # every break variant must be reported under its expected key. Prints only the deviations and a summary line.
 J=8
 [ "$1" = "-j" ] && { J="$2"; shift 2; }
+FILTER="${1:-.}"
 HERE="$(cd "$(dirname "$0")/.." && pwd)"
 OUT="$(mktemp -d /var/tmp/regress-XXXXXX)"
 trap 'rm -rf "$OUT"' EXIT
@@ -10,7 +11,7 @@ trap 'rm -rf "$OUT"' EXIT
   for d in "$HERE"/seeded/*/; do [ -f "$d/patch.diff" ] && echo "$d/patch.diff seed $(basename "$d")"; done
   for f in "$HERE"/variants/break/*.patch; do echo "$f break $(basename "$f" .patch)"; done
   for f in "$HERE"/variants/keep/*.patch "$HERE"/variants/keep-ext/*.patch "$HERE"/variants/pending/*.patch; do [ -f "$f" ] || continue; echo "$f keep $(basename "$f" .patch)"; done
-} > "$OUT/list"
+} | grep -E "$FILTER" > "$OUT/list"
 cat "$OUT/list" | xargs -P "$J" -L 1 sh -c '
   f="$0"; kind="$1"; id="$2"; HERE="'"$HERE"'"
   res="$("$HERE/tools/trypatch.sh" "$f" 2>&1)"
@@ -20,7 +21,7 @@ cat "$OUT/list" | xargs -P "$J" -L 1 sh -c '
     *"DOES NOT"*) echo "SKIP $kind $id ($last)";;
     "RESULT: reported") if [ "$kind" = keep ]; then echo "FALSE-ALARM $id: $keys"; else
         exp="$(grep "^# expect:" "$f" 2>/dev/null | sed "s/# expect: *//" | tr "\n" " ")"; bad=""
-        for e in $exp; do printf "%s\n" "$res" | grep -q "$e" || bad="$bad $e"; done
+        for e in $exp; do printf "%s\n" "$res" | grep -qF -- "$e" || bad="$bad $e"; done
         [ -n "$bad" ] && echo "WRONG-KEY $id (want$bad; got $keys)" || echo "ok $kind $id"; fi;;
     "RESULT: silent") if [ "$kind" = keep ]; then echo "ok keep $id"; else echo "MISSED $kind $id"; fi;;
     *) echo "ERROR $kind $id: $last";;
